@@ -447,4 +447,110 @@ theorem mem_orderOf (doc : Doc) (n : Str) (h : n ∈ orderOf doc) : n ∈ doc.na
   have := (orderOf_perm doc).mem_iff.mp h
   exact (Meta.mem_dedup _ _).mp this
 
+/-! ## the loops, generic in their bodies -/
+
+/-- the loop state (projections `praw`, `punp` to the locals `raw`, `unparsed`) presents the model's accumulator -/
+def StRel {σ : Type} (praw punp : σ → PyVal) (s : σ) (acc : Dict × Unparsed) : Prop :=
+  ∃ r u, praw s = .dict r ∧ punp s = .dict u ∧ DictRel r acc.1 ∧ UnparsedRel u acc.2
+
+/-- `for h in headers`: every iteration appends the decoded value and updates `valid_encoding` -/
+theorem inner_forIn {σ : Type} (pval pvalid : σ → PyVal) (body : PyVal → σ → M (ForInStep σ)) (P : HVal → Prop)
+    (hstep : ∀ (hv : HVal) (s : σ) (vs : List Str) (ok : Bool), P hv → pval s = .list (vs.map .str) → pvalid s = .bool ok →
+      ∃ s', body (encHVal hv) s = .ok (.yield s') ∧ pval s' = .list ((vs ++ [(decodeVal hv).1]).map .str) ∧
+        pvalid s' = .bool (ok && (decodeVal hv).2)) :
+    ∀ (l : List HVal) (s : σ) (vs : List Str) (ok : Bool), (∀ hv ∈ l, P hv) → pval s = .list (vs.map .str) → pvalid s = .bool ok →
+      ∃ s', forIn (l.map encHVal) s body = .ok s' ∧ pval s' = .list ((vs ++ l.map fun h => (decodeVal h).1).map .str) ∧
+        pvalid s' = .bool (ok && l.all fun h => (decodeVal h).2) := by
+  intro l
+  induction l with
+  | nil => intro s vs ok _ h1 h2; exact ⟨s, rfl, by simpa using h1, by simpa using h2⟩
+  | cons x xs ih =>
+    intro s vs ok hP h1 h2
+    obtain ⟨s1, hb, h3, h4⟩ := hstep x s vs ok (hP x (List.mem_cons_self ..)) h1 h2
+    obtain ⟨s2, hf, h5, h6⟩ := ih s1 _ _ (fun y hy => hP y (List.mem_cons_of_mem _ hy)) h3 h4
+    refine ⟨s2, ?_, ?_, ?_⟩
+    · simp only [List.map_cons, List.forIn_cons, hb, ok_bind, hf]
+    · simpa [List.append_assoc] using h5
+    · simpa [Bool.and_assoc] using h6
+
+theorem inner_forIn_bind {σ : Type} (pval pvalid : σ → PyVal) (body : PyVal → σ → M (ForInStep σ)) (k : σ → M (ForInStep τ))
+    (P : HVal → Prop) (Post : M (ForInStep τ) → Prop) (l : List HVal) (s : σ)
+    (hstep : ∀ (hv : HVal) (s : σ) (vs : List Str) (ok : Bool), P hv → pval s = .list (vs.map .str) → pvalid s = .bool ok →
+      ∃ s', body (encHVal hv) s = .ok (.yield s') ∧ pval s' = .list ((vs ++ [(decodeVal hv).1]).map .str) ∧
+        pvalid s' = .bool (ok && (decodeVal hv).2))
+    (hP : ∀ hv ∈ l, P hv) (h1 : pval s = .list []) (h2 : pvalid s = .bool true)
+    (hk : ∀ s', pval s' = .list ((l.map fun h => (decodeVal h).1).map .str) → pvalid s' = .bool (l.all fun h => (decodeVal h).2) →
+      Post (k s')) :
+    Post (forIn (l.map encHVal) s body >>= k) := by
+  obtain ⟨s', hf, h3, h4⟩ := inner_forIn pval pvalid body P hstep l s [] true hP h1 h2
+  rw [hf, ok_bind]
+  exact hk s' (by simpa using h3) (by simpa using h4)
+
+/-- the loop over the header names: every iteration is one `Email.step` -/
+theorem outer_forIn {σ : Type} (praw punp : σ → PyVal) (body : PyVal → σ → M (ForInStep σ)) (doc : Doc)
+    (hstep : ∀ (n : Str) (s : σ) (acc : Dict × Unparsed), n ∈ doc.names → StRel praw punp s acc →
+      ∃ s', body (.str n) s = .ok (.yield s') ∧ StRel praw punp s' (step doc acc n)) :
+    ∀ (l : List Str) (s : σ) (acc : Dict × Unparsed), (∀ n ∈ l, n ∈ doc.names) → StRel praw punp s acc →
+      ∃ s', forIn (l.map .str) s body = .ok s' ∧ StRel praw punp s' (l.foldl (step doc) acc) := by
+  intro l
+  induction l with
+  | nil => intro s acc _ h; exact ⟨s, rfl, h⟩
+  | cons x xs ih =>
+    intro s acc hl h
+    obtain ⟨s1, hb, h1⟩ := hstep x s acc (hl x (List.mem_cons_self ..)) h
+    obtain ⟨s2, hf, h2⟩ := ih s1 _ (fun y hy => hl y (List.mem_cons_of_mem _ hy)) h1
+    exact ⟨s2, by simp only [List.map_cons, List.forIn_cons, hb, ok_bind, hf], h2⟩
+
+theorem outer_forIn_bind {σ : Type} (praw punp : σ → PyVal) (body : PyVal → σ → M (ForInStep σ)) (k : σ → M PyVal) (doc : Doc)
+    (Post : M PyVal → Prop) (l : List Str) (s : σ) (acc : Dict × Unparsed)
+    (hstep : ∀ (n : Str) (s : σ) (acc : Dict × Unparsed), n ∈ doc.names → StRel praw punp s acc →
+      ∃ s', body (.str n) s = .ok (.yield s') ∧ StRel praw punp s' (step doc acc n))
+    (hl : ∀ n ∈ l, n ∈ doc.names) (hs : StRel praw punp s acc)
+    (hk : ∀ s', StRel praw punp s' (l.foldl (step doc) acc) → Post (k s')) :
+    Post (forIn (l.map .str) s body >>= k) := by
+  obtain ⟨s', hf, h⟩ := outer_forIn praw punp body doc hstep l s acc hl hs
+  rw [hf, ok_bind]
+  exact hk s' h
+
+/-! ## run-time facts used by one iteration -/
+
+theorem lowerAscii_idem (c : Nat) : lowerAscii (lowerAscii c) = lowerAscii c := by
+  by_cases h : isUpperAscii c = true
+  · have h' : isUpperAscii (c + 32) = false := by
+      simp only [isUpperAscii, Bool.and_eq_true, decide_eq_true_eq] at h
+      simp only [isUpperAscii, Bool.and_eq_false_iff, decide_eq_false_iff_not]; right; omega
+    simp [lowerAscii, h, h']
+  · simp [lowerAscii, h]
+
+theorem lowerStr_idem (s : Str) : lowerStr (lowerStr s) = lowerStr s := by
+  simp [lowerStr, List.map_map, Function.comp_def, lowerAscii_idem]
+
+/-- `parsed.get_all(name) or []` for an already lower-cased name -/
+theorem msg_get_all_enc (fs : List (String × PyVal)) (doc : Doc) (n : Str)
+    (hh : lookupField fs "headers" = some (.list (encHdrs doc))) :
+    (do let b ← msg_get_all (.obj "Message" fs) (.str (lowerStr n)); if truthy b then pure b else pure (PyVal.list [])) =
+      .ok (.list ((getAll doc (lowerStr n)).map encHVal)) := by
+  have e : ((encHdrs doc).filter fun h => lowerStr (headerName h) == lowerStr (lowerStr n)).map headerValue =
+      (getAll doc (lowerStr n)).map encHVal := by
+    simp only [encHdrs, getAll, lowerStr_idem, List.filter_map, List.map_map]
+    rfl
+  simp only [msg_get_all, msgHeaders, hh, e, pure_ok, ok_bind]
+  cases hg : (getAll doc (lowerStr n)).map encHVal with
+  | nil => simp
+  | cons a b => simp
+
+theorem const_dict_get_strs (kvs : List (PyVal × PyVal)) (t : List (Str × Str))
+    (h : kvs = t.map fun p => (.str p.1, .str p.2)) (k : Str) :
+    PyRx.const_dict_get kvs (.str k) .none = .ok (match aget k t with | some r => .str r | none => .none) := by
+  subst h
+  induction t with
+  | nil => rfl
+  | cons p r ih =>
+    obtain ⟨a, b⟩ := p
+    simp only [List.map_cons, const_dict_get_cons_str, aget]
+    by_cases e : k = a
+    · subst e; simp
+    · have : ¬ a = k := fun e' => e e'.symm
+      simp [e, this, ih]
+
 end Src
